@@ -38,7 +38,7 @@ def compare(full, sub, mode, k):
     return True, worst, ''
 
 
-def run(pid, mode, tier, seed, families=None):
+def run(pid, mode, tier, seed, families=None, extra=None):
     algopy = lib.import_algopy()
     rep = Report(pid, tier, seed)
     what = {'dirs': 'each direction p alone (x.data[:, p:p+1])', 'trunc': "the inputs truncated to D' < D coefficients"}[mode]
@@ -57,14 +57,35 @@ def run(pid, mode, tier, seed, families=None):
     maxdev = 0.0
     for nm in names:
         op = ops.OPS[nm]
-        for _ in range(per_op):
+        for _ in range(per_op * (4 if nm.startswith(('inplace:', 'product:')) else 1)):
             case = op.gen(rng, Dmax=Dmax, Pmax=3)
             inputs = [numpy.array(x, dtype=float) for x in case['inputs']]
+            if rng.random() < 0.3 and inputs[0].shape[0] >= 3 and nm != 'arith:floordiv':     # (x // y with 0/0 at every order never terminates)
+                # whole higher coefficients that vanish in some direction (x(t) = x_0 + x_2 t^2): kernels that shortcut on zeros
+                for x in inputs:
+                    for d in range(1, x.shape[0]):
+                        for p in range(x.shape[1]):
+                            if rng.random() < 0.5:
+                                x[d, p] = 0
+                case['inputs'] = [x.tolist() for x in inputs]
+                rep.count('zero coefficient blocks', True)
             D, P = inputs[0].shape[:2]
             try:
                 full = op.run(algopy, case, inputs)
             except Exception as e:
-                rep.notes.append('%s raised %r on the full inputs (decided by the property that owns the op)' % (nm, e))
+                # an operation that fails on the full inputs but works on every restriction depends on the other directions / coefficients
+                ks0 = list(range(P)) if mode == 'dirs' else list(range(1, D))
+                works = bool(ks0)
+                for k in ks0:
+                    try:
+                        op.run(algopy, case, restrict(inputs, mode, k))
+                    except Exception:
+                        works = False; break
+                if works and (P >= 2 if mode == 'dirs' else True):
+                    rep.violation('%s:%s:exception-on-full-inputs' % (mode, nm), '%s raises %r on the full inputs but evaluates on %s' % (nm, e, what),
+                                  dict(kind='exception', case=case, restriction=None, exc=repr(e)))
+                else:
+                    rep.notes.append('%s raised %r on the full inputs (decided by the property that owns the op)' % (nm, e))
                 continue
             ks = list(range(P)) if mode == 'dirs' else list(range(1, D))
             for k in ks:
@@ -90,6 +111,8 @@ def run(pid, mode, tier, seed, families=None):
                 sub_cases.append(dict(fn=nm[5:], prm=case['prm'], D=int(sub_in.shape[0]), P=int(sub_in.shape[1]), shape=list(sub_in.shape[2:]),
                                       pattern='restricted', route=case['route'], data=sub_in.tolist()))
     program_section(rep, algopy, rng, mode, tier, what)
+    if extra is not None:
+        extra(rep, algopy, rng, tier)
     # Coq model on the restricted runs (same machinery as C01, but reported under this property)
     all_terms, owners = [], []
     for sc in sub_cases:
@@ -161,9 +184,15 @@ def program_check(ap, prog, x, ybars, mode, k, tol=1e-9):
 def program_section(rep, ap, rng, mode, tier, what):
     """generated programs (scalar code, buffers, vector/matrix blocks, inv/solve/det, eigh/qr/cholesky): forward evaluation and the
     reverse sweep on all directions / all coefficients against the run restricted to one direction / truncated"""
-    n_prog = 50 if tier == 'quick' else 1200
-    for it in range(n_prog):
-        prog = progs.gen_prog(rng, ap, nout=rng.choice([1, 1, 2]))
+    n_prog = 80 if tier == "quick" else 1600
+    kernel = progs.kernel_programs(rng, ap, reps=1 if tier == 'quick' else 6)
+    for it in range(n_prog + len(kernel)):
+        if it < n_prog:
+            prog = progs.gen_prog(rng, ap, nout=rng.choice([1, 1, 2]), focus='linalg' if it % 2 == 1 else None)
+        else:
+            # every forward and pullback kernel the generator knows, regardless of what the random composition picked
+            prog = kernel[it - n_prog][1]
+            rep.count('kernel program', kernel[it - n_prog][0])
         N = prog['N']
         D = rng.randint(1, 4) if mode == 'dirs' else rng.randint(2, 5)
         P = rng.randint(2, 3) if mode == 'dirs' else rng.randint(1, 2)
